@@ -56,7 +56,7 @@ Honest ==
       vote(a, ty) == Pkt(ty, t, t, Addr[a], Key[a], a, a)
       ctl(ty) == Pkt(ty, t, t, Addr[cur.ldr], Key[cur.ldr], "none", "none")
       others == cur.rem \ ({role} \cup cur.acc \cup cur.rej)
-  IN IF exec = "running" THEN {[k |-> "exec", out |-> "complete"], [k |-> "exec", out |-> "complete"], [k |-> "exec", out |-> "failed"]}
+  IN IF exec = "running" THEN {[k |-> "exec", out |-> IF RandomElement(1..5) = 1 THEN "failed" ELSE "complete"]}
      ELSE IF cur.st \in {"Fresh", "Complete", "Left"} \cup Terminal THEN propose
      ELSE IF cur.st = "Proposed" THEN
             (IF role \in cur.rem THEN {Cmd("accept", NoTerms, "none"), Cmd("accept", NoTerms, "none"), Cmd("reject", NoTerms, "none")} ELSE {})
